@@ -227,6 +227,11 @@ def run(ctx):
         ul = util_lines(c) if st.mode_of(c) == 'int' else []
         lines += [l1, l2, l3] + ul
         meta.append((c, est, Xt, cells, reg, len(ul), w))
+    for c in st.many_episode_cases(ctx.rng):
+        ctx.count('size form: ' + c['size_form'])
+        why = oracle(c)
+        if why:
+            ctx.fail(why + f" ({c['size_form']}, labels with gaps)", c, {'kinds': sorted(pipes.kinds_in(c['spec'])), 'size': c['size_form']})
     replies = drv.ask(lines)
     pos = 0
     bad = []
